@@ -314,6 +314,15 @@ def plain_deep_chain(n, cap="ALU"):
             "dataPath": [[f"d{i}", f"d{i + 1}"] for i in range(n - 1)]}
 
 
+def deep_dead_chain(n, cap="ALU"):
+    """in -> good, and next to it in -> c1 -> ... -> cn -> x where x shares no capability: x is dropped and the
+    chain is a dead end that has to be trimmed unit by unit; the loaded processor is in -> good"""
+    u = lambda name, c, lock=False: {"name": name, "width": 1, "capabilities": [c], "readLock": lock, "writeLock": lock}
+    units = [u("in", cap, True), u("good", cap)] + [u(f"c{i}", cap) for i in range(1, n + 1)] + [u("x", "ZZ")]
+    dp = [["in", "good"], ["in", "c1"]] + [[f"c{i}", f"c{i + 1}"] for i in range(1, n)] + [[f"c{n}", "x"]]
+    return {"units": units, "dataPath": dp}
+
+
 def valid_desc(rng, nmax=6, **kw):
     """a description that the loader accepts with good probability"""
     d = dup_noise(rng, rand_desc(rng, nmax, **kw))
